@@ -78,6 +78,8 @@ def _write(detector, a, step):
     mode = a.get("mode", "assign")
     idiom = int(a.get("idiom", 0))
     v = a["per_step"][step]
+    if v < 0:
+        return                                  # the writer does nothing at this step
     waves = int(a.get("waves", 0))
     shp = ((waves,) + shape) if (b == "photon" and waves) else shape
     arr = (np.arange(int(np.prod(shp)), dtype=object) + int(v)).reshape(shp)
